@@ -208,6 +208,6 @@ var files = ev.NewCheck("C10", "files",
 		return c
 	}, run)
 
-func TestPropFiles(t *testing.T) { files.Rapid(t, 40, 3000) }
+func TestPropFiles(t *testing.T) { files.Rapid(t, 100, 3000) }
 
 func TestReplay(t *testing.T) { ev.ReplayAll(t) }
